@@ -24,7 +24,8 @@ LIKELY_RULE = ("suite `likely` (harness built with the likelysubtags feature and
                "tables; every table key as a triple with 8 perturbations each (a component dropped / replaced by an unknown / by a random CLDR subtag); "
                "random triples over the CLDR subtag universe + unknown representatives; method forms with variants attached; the 710 layout locales and "
                "language x script / language x region products for character_direction; SCHEDULES: every table key maximized / minimized from 8 threads at once "
-               "(30 rounds, thorough 300; each shard), the answers compared with the single-threaded ones (`par_*` operations, judged like the plain ones). non-trivial = distinct (operation, input) pairs whose model answer is not an error")
+               "(30 rounds, thorough 300; each shard), the answers compared with the single-threaded ones (`par_*` operations, judged like the plain ones); STATE BETWEEN CALLS: ordered pairs of triples / identifiers that share their language, "
+               "two calls in ONE case so that both run in the same process (`seq_*` operations: the second answer, judged like the plain operation on the second input). non-trivial = distinct (operation, input) pairs whose model answer is not an error")
 
 LANGID_RULE = ("suite `langid`: G2 token sequences (12 first tokens x boundary-class alphabet of ~78 tokens: all sequences of <= 3 tokens, "
                "<= 4 over a 31-token alphabet; thorough: one more level), joined with random '-'/'_' masks; G3 random well-formed identifiers with random "
@@ -57,7 +58,7 @@ PROPS = {
                 "hangs, aborts and the `big` (100k-subtag) cases count; the `big` cases and all operation histories and the raw-integer conversions of the four subtag types are run a second time on an UNOPTIMISED build of the harness and library "
                 "(debug assertions and overflow checks on, no tail-call elimination: recursion depth and arithmetic overflow show up there). " + LOCALE_RULE,
     },
-    "C03": {"runs": lambda tier: [run("locale", ops=["locale", "extmap", "ext_type", "par_locale"], features=["likely"])], "rule": LOCALE_RULE},
+    "C03": {"runs": lambda tier: [run("locale", ops=["locale", "extmap", "ext_type", "par_locale", "seq_locale"], features=["likely"])], "rule": LOCALE_RULE},
     "C04": {"runs": lambda tier: [run("locale", ops=["loc_canonicalize", "loc_hist"], features=["likely"]), run("langid", ops=["li_canonicalize", "langid", "li_from_parts"])],
             "rule": LOCALE_RULE + " || " + LANGID_RULE},
     "C05": {"runs": lambda tier: [run("locale", ops=["loc_roundtrip", "extmap", "loc_canonicalize", "loc_hist", "loc_built"], features=["likely"]), run("langid", ops=["li_roundtrip", "li_canonicalize"])],
@@ -99,20 +100,20 @@ PROPS = {
                                   run("locale", ops=["loc_into_parts", "loc_built"], features=["likely"])], "rule": LOCALE_RULE},
 
     "C06": {
-        "runs": simple("likely", ops=["maximize", "li_maximize", "par_maximize"], features=["likely"]),
+        "runs": simple("likely", ops=["maximize", "li_maximize", "par_maximize", "seq_maximize"], features=["likely"]),
         "rule": LIKELY_RULE,
     },
     "C07": {
-        "runs": simple("likely", ops=["maximize", "li_maximize", "par_maximize"], features=["likely"]),
+        "runs": simple("likely", ops=["maximize", "li_maximize", "par_maximize", "seq_maximize"], features=["likely"]),
         "rule": LIKELY_RULE + "; the C07 laws are also evaluated on the library alone inside the harness (LAWFAIL answers)",
     },
     "C08": {
-        "runs": simple("likely", ops=["minimize", "li_minimize", "par_minimize"], features=["likely"]),
+        "runs": simple("likely", ops=["minimize", "li_minimize", "par_minimize", "seq_minimize"], features=["likely"]),
         "rule": LIKELY_RULE + "; the C08 laws are also evaluated on the library alone inside the harness (LAWFAIL answers)",
     },
     "C14": {
-        "runs": lambda tier: [{"suite": "likely", "ops": ["direction_likely"], "features": ["likely"]},
-                              {"suite": "likely", "ops": ["direction_plain"], "features": []}],
+        "runs": lambda tier: [{"suite": "likely", "ops": ["direction_likely", "seq_direction_likely"], "features": ["likely"]},
+                              {"suite": "likely", "ops": ["direction_plain", "seq_direction_plain"], "features": []}],
         "rule": LIKELY_RULE + "; run twice: with and without the likelysubtags feature",
     },
     "C18": {
@@ -120,7 +121,7 @@ PROPS = {
         "rule": LIKELY_RULE,
     },
     "C02": {
-        "runs": simple("langid", ops=["langid", "li_canonicalize", "li_iter", "par_langid"]),
+        "runs": simple("langid", ops=["langid", "li_canonicalize", "li_iter", "par_langid", "seq_langid"]),
         "rule": LANGID_RULE,
     },
     "C15": {
